@@ -623,7 +623,7 @@ def flatten_dict_data(data, fun="{}/{}".format):
         ret = {}
         gen_1 = dict_gen if isinstance(data, dict) else list_gen
         for i, data_i in gen_1(data):
-            tmp = flatten_dict_data(data_i)
+            tmp = flatten_dict_data(data_i, fun)
             if isinstance(tmp, (dict, list, tuple)):
                 gen_2 = dict_gen if isinstance(tmp, dict) else list_gen
                 for j, tmp_j in gen_2(tmp):
